@@ -166,11 +166,12 @@ def enc_stmt(s):
 
 # ----------------------------------------------------------------------------- schema / population generator
 
-def gen_schema(rng, n_classes=None, max_assocs=3, phrase_mode='mixed', allow_empty_keys=True, shared_index_p=0.35):
+def gen_schema(rng, n_classes=None, max_assocs=3, phrase_mode='mixed', allow_empty_keys=True, shared_index_p=0.35, types=None):
     """-> (class stmts, assoc stmts, uniq stmts).
     phrase_mode: 'plain' = no reflexive association, both ends of every association carry the same phrase
                  (mostly none); 'mixed' = anything in the domain (reflexive, different phrases, twin
-                 associations with one rel id and swapped phrases)"""
+                 associations with one rel id and swapped phrases)
+    types: None, or the list the attribute types are drawn from (repeats weight a type)"""
     n = n_classes or rng.choice([1, 2, 2, 3, 3, 4])
     kinds = KINDS[:n]
     if rng.random() < 0.3:
@@ -178,6 +179,9 @@ def gen_schema(rng, n_classes=None, max_assocs=3, phrase_mode='mixed', allow_emp
     attrs = {}
     for k in kinds:
         m = rng.randint(1, 4)
+        if types is not None:
+            attrs[k] = [['a%d' % i, rng.choice(types)] for i in range(m)]
+            continue
         attrs[k] = [['a%d' % i, rng.choice(TYPES if rng.random() < 0.6 else ['INTEGER', 'UNIQUE_ID', 'STRING'])]
                     for i in range(m)]
     assocs = []
@@ -346,11 +350,15 @@ def gen_shared_index_population(rng):
 
 
 def gen_population(rng, max_rows=4, phrase_mode='mixed', inferred_p=0.15, max_stmts=None, n_classes=None,
-                   max_assocs=3, allow_empty_keys=True):
+                   max_assocs=3, allow_empty_keys=True, types=None, pool=None):
+    """types / pool: None, or the attribute types to draw from / the value pool per type of this population"""
     classes, assocs, uniqs = gen_schema(rng, n_classes=n_classes, max_assocs=max_assocs, phrase_mode=phrase_mode,
-                                        allow_empty_keys=allow_empty_keys)
+                                        allow_empty_keys=allow_empty_keys, types=types)
     rows = []
+    given_pool = pool
     pool = HASH_POOL if rng.random() < 0.2 else POOL
+    if given_pool is not None:
+        pool = given_pool
     for c in classes:
         for _ in range(rng.randint(0, max_rows)):
             rows.append(gen_row(rng, c['kind'], c['attrs'], pool=pool))
